@@ -431,7 +431,12 @@ impl Database {
             {
                 let child_storage_arc = file_manager.table_data_mut(child_schema, child_name)?;
                 let mut child_storage = child_storage_arc.write();
-                let child_btree = BTree::new(&mut *child_storage, root_page)?;
+                // the child table has its own root (not the parent's)
+                let child_root_page = {
+                    let page = child_storage.page(0)?;
+                    TableFileHeader::from_bytes(page)?.root_page()
+                };
+                let child_btree = BTree::new(&mut *child_storage, child_root_page)?;
                 let mut child_cursor = child_btree.cursor_first()?;
                 let child_record_schema = create_record_schema(child_columns);
 
@@ -498,7 +503,11 @@ impl Database {
         for (child_schema, child_name, keys) in &cascade_deletes {
             let child_storage_arc = file_manager.table_data_mut(child_schema, child_name)?;
             let mut child_storage = child_storage_arc.write();
-            let mut child_btree = BTree::new(&mut *child_storage, root_page)?;
+            let child_root_page = {
+                let page = child_storage.page(0)?;
+                TableFileHeader::from_bytes(page)?.root_page()
+            };
+            let mut child_btree = BTree::new(&mut *child_storage, child_root_page)?;
 
             for key in keys {
                 let _ = child_btree.delete(key);
